@@ -3,6 +3,7 @@ package gen
 import (
 	"fmt"
 	"strings"
+	"unicode/utf8"
 )
 
 // ---- pattern nodes ----------------------------------------------------------------
@@ -161,6 +162,15 @@ func Quote(s string) string {
 	sb.WriteByte(q)
 	for i := 0; i < len(s); i++ {
 		c := s[i]
+		if c >= 0x80 {
+			// a source is UTF-8 text: a well-formed multi-byte character is written raw (the \xHH escape denotes
+			// the code point U+00HH, not the byte)
+			if rn, w := utf8.DecodeRuneInString(s[i:]); rn != utf8.RuneError && w > 1 {
+				sb.WriteString(s[i : i+w])
+				i += w - 1
+				continue
+			}
+		}
 		switch {
 		case c == q || c == '\\':
 			sb.WriteByte('\\')
